@@ -128,14 +128,12 @@ def nice_witness(ob):
     r = smt.prove(ob.hyps + nice, ob.goal, timeout_ms=5000)
     if r.status == "sat" and r.model is not None:
         return r.model
-    return ob.result.model
+    return ob.result.model or getattr(ob.result, "candidate_model", None)
 
 
 def triage(run, rep, variant):
-    for ob in rep.obligations:
-        if ob.result.status != "sat":
-            continue
-        model = nice_witness(ob)
+    for ob, model0, definitive in driver.refuted(run, rep):
+        model = nice_witness(ob) or model0
         payload = {"language": "python", "function": rep.key, "variant": variant, "solver": ob.result.backend, "solver_result": "sat", "counter_model": smt.model_to_dict(model)}
         confirmed = False
         what = f"{ob.name} refuted"
@@ -150,6 +148,9 @@ def triage(run, rep, variant):
                 what = f"python tick {sc}: {why}"
         except Exception as e:  # replay construction problems never become violations by themselves
             payload["replay_error"] = repr(e)
+        if not confirmed and not definitive:
+            run.undecided.append(ob.name)
+            continue
         run.findings.append(Finding(ob.name, variant, what, payload, confirmed, theory=ob.theory))
 
 
